@@ -394,3 +394,52 @@ func LoadFile(path string) {
 	Failures, Reached, Notes, Invalid = nil, nil, nil, nil
 	originOnce = sync.Once{}
 }
+
+// MkRegular creates an ordinary file (not a pipe) and returns its path.
+func MkRegular(name string) string {
+	dir, err := os.MkdirTemp("", "verif-file")
+	if err != nil {
+		panic(err)
+	}
+	path := dir + "/" + name
+	if err := os.WriteFile(path, nil, 0o600); err != nil {
+		panic(err)
+	}
+	return path
+}
+
+// OutputPath returns the path of a fresh, existing, empty file for the daemon's events output
+// (the daemon waits until the file exists).
+func OutputPath(name string) string {
+	dir, err := os.MkdirTemp("", "verif-out")
+	if err != nil {
+		panic(err)
+	}
+	if err := os.WriteFile(dir+"/"+name, nil, 0o600); err != nil {
+		panic(err)
+	}
+	return dir + "/" + name
+}
+
+// OutputEventTypes returns the "type" member of every JSON line of the events output.
+func OutputEventTypes(path string) []string {
+	data, err := os.ReadFile(path)
+	if err != nil {
+		return nil
+	}
+	var out []string
+	for _, l := range strings.Split(string(data), "\n") {
+		if strings.TrimSpace(l) == "" {
+			continue
+		}
+		var m struct {
+			Type string `json:"type"`
+		}
+		if json.Unmarshal([]byte(l), &m) != nil {
+			out = append(out, "<torn>")
+			continue
+		}
+		out = append(out, m.Type)
+	}
+	return out
+}
